@@ -267,9 +267,20 @@ def run_check(pid, spec, args, seed, work, t0):
             for m in st.get("inconclusive") or []:
                 inconclusive.append("%s/%d: %s" % (jn, p.shard, m))
         out = p.out or ""
+        if p.job.get("kind") == "fuzz":
+            ex = [int(x) for x in re.findall(r"execs: (\d+)", out)]
+            tot = [int(x) for x in re.findall(r"new interesting: \d+ \(total: (\d+)\)", out)]
+            if ex:
+                merged["evaluations"] += ex[-1]
+                pj["evaluations"] += ex[-1]
+                merged["extra"]["fuzz_execs:" + jn] = ex[-1]
+            if tot:
+                merged["extra"]["fuzz_corpus_entries(coverage-distinct inputs):" + jn] = tot[-1]
+                merged["fp"].update("fuzz:%s:%d" % (jn, i) for i in range(tot[-1]))
+            st = st or {}
         harness_viol = re.findall(r"VERIF-VIOLATION test=(\S+) replay=(\S*) summary=(.*)", out)
         if p.rc == 0:
-            if st is None:
+            if st is None and p.job.get("kind") != "fuzz":
                 inconclusive.append("%s/%d: no statistics written" % (jn, p.shard))
             if harness_viol:
                 # a harness-recorded violation must fail the test; treat as violation anyway
